@@ -278,7 +278,7 @@ theorem mdBytesOpt_len (md : Option TxMd) (b : Bytes) (h : mdBytesOpt md = .ok b
 
 /-- The record an accepted delivery of PARSED bytes stores is a well-formed extension of the chain. -/
 theorem precommit_recOK (hs : Hs D) (st : RSt D) (hk : st.cfg.maxKeyLen < 65536)
-    (hpool : st.poolBlRoot.length = 32) (b : Bytes) (p : Parsed)
+    (b : Bytes) (p : Parsed)
     (skip : Bool) (r : RRec D) (hp : parseExported b = .ok p) (hok : precommit hs st p skip = .ok r) :
     RecOK hs st.chain r := by
   obtain ⟨hb, hhd⟩ := parseExported_hdr b p hp
@@ -300,7 +300,7 @@ theorem precommit_recOK (hs : Hs D) (st : RSt D) (hk : st.cfg.maxKeyLen < 65536)
   · show p.hdr.blTxID ≤ st.chain.length
     omega
   · show p.hdr.blTxID > 0 →
-      (if p.hdr.blTxID > 0 then blr else st.poolBlRoot) = blRootOf hs (st.chain.map (·.alh)) p.hdr.blTxID
+      (if p.hdr.blTxID > 0 then blr else zeros32) = blRootOf hs (st.chain.map (·.alh)) p.hdr.blTxID
     intro hb0
     rw [if_pos hb0, ← hblr]
     unfold blRootOf RSt.rootAt
@@ -326,10 +326,10 @@ theorem precommit_recOK (hs : Hs D) (st : RSt D) (hk : st.cfg.maxKeyLen < 65536)
       · omega
     · show p.hdr.blTxID < 2 ^ 64
       omega
-    · show (if p.hdr.blTxID > 0 then blr else st.poolBlRoot).length = 32
+    · show (if p.hdr.blTxID > 0 then blr else zeros32).length = 32
       split
       · exact hblr32
-      · exact hpool
+      · simp [zeros32]
   · intro x hx
     rcases ReplicaEntriesAux.setAll_mem st.cfg _ _ _ hes x hx with h | ⟨h1, h2⟩
     · simp at h
